@@ -5,7 +5,8 @@
    * [json_escape] / [json_unescape]: byte-level model of the string encoder
      (encoding/json appendString with HTML escaping, Go 1.23: short escapes
      for quote, backslash, \b \f \n \r \t; \u00XX for other controls and for
-     the three HTML characters;    ; invalid UTF-8 bytes -> �) and of the decoder's [unquote].
+     the three HTML characters; backslash-u 2028 / 2029 for the two line separators; every ill-formed
+     UTF-8 byte -> backslash-u fffd) and of the decoder's [unquote].
    * [print]: the compact text json.Marshal emits for a value whose members are in AST order.
    * [view]: what json.Unmarshal into a struct with RawMessage fields observes
      of a text: syntax error, or object members with their raw value text and
